@@ -590,3 +590,55 @@ func TestC19_R_ConcurrentFixtureBuilds(t *testing.T) {
 		}
 	}
 }
+
+// BuildDirectory handed children that do not share one parent path (an entry from /docs next to one from the root, a
+// bare name): every entry is stored under the last element of its path, which is what the description says.
+func TestC19_R_BuildDirectoryFromChildrenOfMixedParents(t *testing.T) {
+	st := NewStore()
+	ls := st.LinkSystem()
+	rec := &recT{}
+	r := &detReader{s: 77}
+	var kids []testutil.DirEntry
+	for i, p := range []string{"/docs/readme.txt", "/notes.txt", "todo", "/a/b/c/deep.bin", "/top/xu", "/zz"} {
+		f := testutil.GenerateFile(rec, ls, r, 40+i)
+		f.Path = p
+		kids = append(kids, f)
+	}
+	for _, sharded := range []bool{false, true} {
+		de := testutil.BuildDirectory(rec, ls, kids, sharded)
+		want := map[string]cid.Cid{}
+		for _, k := range kids {
+			want[lastSeg(k.Path)] = k.Root
+		}
+		rn, err := loadReified(ls, de.Root, "unixfs")
+		if err != nil {
+			t.Fatal(err)
+		}
+		got := map[string]cid.Cid{}
+		for it := rn.MapIterator(); !it.Done(); {
+			k, v, err := it.Next()
+			if err != nil {
+				t.Fatal(err)
+			}
+			ks, _ := k.AsString()
+			got[ks], _ = linkOf(v)
+		}
+		if len(got) != len(want) {
+			t.Fatalf("C19: BuildDirectory(sharded=%v) from children of mixed parents stored the names %v, described %v", sharded, cidKeys(got), cidKeys(want))
+		}
+		for name, c := range want {
+			if got[name] != c {
+				t.Fatalf("C19: BuildDirectory(sharded=%v) from children of mixed parents: the description has an entry %q, the stored directory lists %v", sharded, name, cidKeys(got))
+			}
+		}
+	}
+}
+
+func cidKeys(m map[string]cid.Cid) []string {
+	var out []string
+	for k := range m {
+		out = append(out, k)
+	}
+	sort.Strings(out)
+	return out
+}
